@@ -16,7 +16,7 @@ def run(ctx):
     binary = D.build_harness(ctx, "c15")
     D.stage_spec(ctx, params={"Seed": ctx.seed, "ObsFile": ""})
     # role 1 + 2: the laws of FPLiterals on every case of the pools; one case per explored state
-    mc = D.model_check(ctx, "C15_MC", "C15_mc_%s.cfg" % ctx.tier, timeout=600, workers=8)
+    mc = D.model_check(ctx, "C15_MC", "C15_mc_%s.cfg" % ctx.tier, timeout=600, workers=4)
     cases = mc.records
     per_family = {f: sum(1 for c in cases if c["kind"] == f) for f in FAMILIES}
     D.log("  cases per family: %s" % per_family)
@@ -31,7 +31,7 @@ def run(ctx):
     D.run_harness(ctx, binary, ["run", ctx.path("cases.ndjson"), ctx.path("obs.ndjson")], timeout=1500)
     obs = D.read_ndjson(ctx.path("obs.ndjson"))
     # role 3: judge
-    verdicts = D.judge(ctx, "C15_Judge", "C15_judge.cfg", ctx.path("obs.ndjson"), params={"Seed": ctx.seed}, timeout=1500)
+    verdicts = D.judge(ctx, "C15_Judge", "C15_judge.cfg", ctx.path("obs.ndjson"), params={"Seed": ctx.seed}, timeout=1500, workers=4)
     D.check_complete(verdicts, obs)
     if any(v.get("sig", "").startswith("malformed") for v in verdicts):
         raise D.Inconclusive("judge found malformed records: %s" % [v for v in verdicts if v.get("sig", "").startswith("malformed")][:3])
@@ -83,7 +83,7 @@ def corrupt_probe(ctx, obs):
         raise D.Inconclusive("corrupted-record probe: no suitable record")
     victim["out"]["items"][0]["cp"] = victim["out"]["items"][0]["cp"][:-1]
     D.write_ndjson(ctx.path("corrupt.ndjson"), [victim, obs[-1]])
-    vs = D.judge(ctx, "C15_Judge", "C15_judge.cfg", ctx.path("corrupt.ndjson"), params={"Seed": ctx.seed}, tag="judge-corrupt")
+    vs = D.judge(ctx, "C15_Judge", "C15_judge.cfg", ctx.path("corrupt.ndjson"), params={"Seed": ctx.seed}, tag="judge-corrupt", workers=4)
     bad = [v for v in vs if not v["ok"]]
     if not bad or bad[0]["id"] != victim["id"]:
         raise D.Inconclusive("corrupted-record probe: judge did not reject the corrupted record")
